@@ -12,4 +12,5 @@ var Registry = map[string]func(args []string){
 	"chanr":    ChanR,
 	"neg":      Neg,
 	"client":   Client,
+	"path":     PathEngine,
 }
